@@ -131,6 +131,95 @@ def register(add, parse, find_func, const_int, rat_of, ShapeError, module_assign
     add("coreRuntimeErrorHandlerBuildsFrame", "Bool", "true" if builds else "false",
         "the `except RuntimeError` clause around the bar loop calls _generate_account_status_df() unguarded before re-raising: with no account row "
         "yet (a hook raising on the first bar) pandas raises IndexError there, which replaces the hook's exception")
+    # --- finalize(): are the action records of the operations it issues delivered to notify() afterwards (C05)? ------------------------------
+    # straight-line statements of the function that holds the bar loop: `<…>.finalize()` followed (before anything else that could record
+    # or raise: only comments in between) by `self.notify(<…>, self._currents.actions)` and `self._currents.actions = []`
+    def _is_call_stmt(x, attr):
+        return isinstance(x, ast.Expr) and isinstance(x.value, ast.Call) and getattr(x.value.func, "attr", "") == attr
+    fin_at = [i for i, x in enumerate(loop_fn.body) if _is_call_stmt(x, "finalize")]
+    if len(fin_at) != 1:
+        raise ShapeError(f"expected exactly one top-level `….finalize()` statement in {loop_fn.name}, found {len(fin_at)}")
+    after_fin = loop_fn.body[fin_at[0] + 1:fin_at[0] + 3]
+    delivers = False
+    if len(after_fin) == 2 and _is_call_stmt(after_fin[0], "notify"):
+        call = after_fin[0].value
+        hands_currents = len(call.args) == 2 and ast.unparse(call.args[1]) == "self._currents.actions" and not call.keywords
+        clears = (isinstance(after_fin[1], ast.Assign) and ast.unparse(after_fin[1].targets[0]) == "self._currents.actions"
+                  and isinstance(after_fin[1].value, ast.List) and not after_fin[1].value.elts)
+        if hands_currents and clears:
+            delivers = True
+        else:
+            raise ShapeError("finalize() is followed by a notify(...) call of an unexpected shape (expected notify(strategy, self._currents.actions) "
+                             "and `self._currents.actions = []`)")
+    elif any(_is_call_stmt(x, "notify") for x in loop_fn.body[fin_at[0] + 1:]):
+        raise ShapeError("a notify(...) call follows finalize() but not directly: the model of the deliveries after finalize() must be revised")
+    add("coreFinalizeDeliversActions", "Bool", "true" if delivers else "false",
+        "after strategy.finalize() the run hands self._currents.actions to notify() and clears it: the records of operations issued by "
+        "finalize() are delivered like any other")
+    # --- the clock the action records are stamped from (C05): `_record_action_list` stamps `self._currents.timestamp`; the bar loop assigns it
+    # from the loop variable after the first status refresh and before before_bar(); before initialize() it is the first bar
+    rec_fn = find_func(act, "_record_action_list", cls="Actuator")
+    stamps = [n for n in ast.walk(rec_fn) if isinstance(n, ast.Assign) and ast.unparse(n.targets[0]).endswith(".timestamp")]
+    if len(stamps) != 1:
+        raise ShapeError("_record_action_list: expected one assignment to <action>.timestamp")
+    add("coreActionStampedFromCurrents", "Bool", "true" if ast.unparse(stamps[0].value) == "self._currents.timestamp" else "false",
+        "_record_action_list stamps a record with self._currents.timestamp")
+    loop_var = bar_loop.target.id if isinstance(bar_loop.target, ast.Name) else None
+    pos_assign = [i for i, x in enumerate(bar_loop.body) if isinstance(x, ast.Assign) and ast.unparse(x.targets[0]) == "self._currents.timestamp"]
+    pos_before = [i for i, x in enumerate(bar_loop.body) if any(isinstance(c, ast.Call) and getattr(c.func, "attr", "") == "before_bar" for c in ast.walk(x))]
+    pos_set = [i for i, x in enumerate(bar_loop.body) if any(isinstance(c, ast.Call) and "set_market_snapshot" in getattr(c.func, "attr", "") for c in ast.walk(x))]
+    if len(pos_before) != 1 or not pos_set:
+        raise ShapeError("bar loop: expected one top-level statement calling before_bar and the status refresh before it")
+    clock_ok = (len(pos_assign) == 1 and pos_set[0] < pos_assign[0] < pos_before[0] and loop_var is not None
+                and ast.unparse(bar_loop.body[pos_assign[0]].value) in (f"{loop_var}.to_pydatetime()", loop_var)
+                and not any(isinstance(n, ast.Assign) and ast.unparse(n.targets[0]) == "self._currents.timestamp"
+                            for x in bar_loop.body for n in ast.walk(x) if n is not bar_loop.body[pos_assign[0]]))
+    add("coreClockSetBeforeBeforeBar", "Bool", "true" if clock_ok else "false",
+        "the bar loop assigns self._currents.timestamp exactly once per bar, from the loop variable, after the first status refresh and before "
+        "before_bar(): everything a hook of the bar records is stamped with that bar")
+    init_pos = [i for i, x in enumerate(loop_fn.body) if _is_call_stmt(x, "init_strategy")]
+    pre_assign = [i for i, x in enumerate(loop_fn.body) if isinstance(x, ast.Assign) and ast.unparse(x.targets[0]) == "self._currents.timestamp"]
+    add("coreClockSetBeforeInitialize", "Bool",
+        "true" if (len(init_pos) == 1 and len(pre_assign) == 1 and pre_assign[0] < init_pos[0]
+                   and ast.unparse(loop_fn.body[pre_assign[0]].value).startswith("index_array[0]")) else "false",
+        "before initialize() the clock is set to the first bar of the index: what initialize() records is stamped with the first bar")
+    # --- which market classes raise KeyError from set_market_status on a bar their frame has no row for (C05) ---------------------------------
+    # `<frame>.loc[<timestamp>]` in set_market_status, unguarded (strict: KeyError when the market is closed) or only under an
+    # `if <timestamp> in <frame>.index` (tolerant: an empty status instead)
+    def strict_of(path, cls):
+        fn = find_func(parse(path), "set_market_status", cls=cls)
+        locs = []
+
+        def walk(node, guarded):
+            if isinstance(node, ast.If):
+                g = guarded or any(isinstance(c, ast.Compare) and any(isinstance(o, ast.In) for o in c.ops) and ast.unparse(c.comparators[0]).endswith(".index")
+                                   for c in ast.walk(node.test))
+                for x in node.body:
+                    walk(x, g)
+                for x in node.orelse:
+                    walk(x, guarded)
+                return
+            if isinstance(node, (ast.Try, ast.While, ast.For, ast.With)):
+                raise ShapeError(f"{cls}.set_market_status: unexpected {type(node).__name__} statement: the model of a closed market's status refresh must be revised")
+            if isinstance(node, ast.Subscript) and isinstance(node.value, ast.Attribute) and node.value.attr == "loc":
+                locs.append(guarded)
+            for ch in ast.iter_child_nodes(node):
+                walk(ch, guarded)
+        for st_ in fn.body:
+            walk(st_, False)
+        if not locs:
+            raise ShapeError(f"{cls}.set_market_status: no `<frame>.loc[...]` lookup found")
+        if all(locs):
+            return False
+        if not any(locs):
+            return True
+        raise ShapeError(f"{cls}.set_market_status: guarded and unguarded row lookups mixed")
+    for nm, path, cls in (("Uni", "demeter/uniswap/market.py", "UniLpMarket"), ("Aave", "demeter/aave/market.py", "AaveV3Market"),
+                          ("Squeeth", "demeter/squeeth/market.py", "SqueethMarket"), ("Gmx", "demeter/gmx/market.py", "GmxMarket"),
+                          ("GmxV2", "demeter/gmx/market2.py", "GmxV2Market"), ("Deribit", "demeter/deribit/market.py", "DeribitOptionMarket")):
+        add(f"coreStrictStatus{nm}", "Bool", "true" if strict_of(path, cls) else "false",
+            f"{cls}.set_market_status looks the bar's row up unguarded (`.loc[timestamp]`): on a bar its frame has no row for it raises KeyError "
+            f"(false: the lookup is guarded by `in ….index`, the market is just closed)")
     # the trigger loop: `for <t> in <expr>: if <t>.when(…): <t>.do(…)` — over the live list `….triggers` or over a copy?
     trig_loops = [n for n in ast.walk(bar_loop) if isinstance(n, ast.For) and n is not bar_loop
                   and any(isinstance(c, ast.Call) and getattr(c.func, "attr", "") == "when" for c in ast.walk(n))]
